@@ -575,8 +575,9 @@ def _(c):
 
 
 def _grid_light(tier, rng):
-    """ISS-like and Molniya orbits, sampling steps {60 s, 300 s}, umbra and penumbra listeners"""
-    for o in (0, 1):
+    """ISS-like, Molniya and geostationary (at the March equinox: the eclipse season, where the shadow is crossed 36 000 km behind the Earth and the two cones are furthest
+    apart) orbits, sampling steps {60 s, 300 s}, umbra and penumbra listeners"""
+    for o in (0, 1, 2):
         for st in (60.0, 300.0):
             for typ in (0, 1):
                 yield {"orbit": o, "step": st, "type": typ}
@@ -606,9 +607,20 @@ def _(c):
     from beyond.dates import timedelta
     from beyond.propagators.listeners import LightListener
     from beyond.env.solarsystem import get_body
-    kind = ["iss", "molniya"][c.integer("orbit")]
+    kind = ["iss", "molniya", "geo"][c.integer("orbit")]
     typ = ["umbra", "penumbra"][c.integer("type")]
-    src, orb, d0, T = _mk_orbit(kind, "kepler")
+    if kind == "geo":
+        from beyond.orbits import Orbit
+        from beyond.dates import Date
+        from beyond.propagators.kepler import Kepler
+        from beyond.constants import Earth
+        from contracts.c19_mission import _kep2cart
+        r0, v0 = _kep2cart(42164.0e3, 0.0005, 0.02, 1.0, 2.0, 0.5, Earth.mu)
+        d0 = Date(2018, 3, 20, 1, 2, 3)
+        orb = Orbit(list(r0) + list(v0), d0, "cartesian", "EME2000", Kepler())
+        T = 2 * math.pi * math.sqrt(42164.0e3 ** 3 / Earth.mu)
+    else:
+        src, orb, d0, T = _mk_orbit(kind, "kepler")
     sun = get_body("Sun")
     tol = 0.01 if typ == "umbra" else 0.5
     evs = [o for o in orb.iter(start=d0, stop=d0 + timedelta(seconds=1.5 * T), step=timedelta(seconds=c.real("step")), listeners=[LightListener(typ)]) if o.event]
@@ -622,7 +634,7 @@ def _(c):
         before, after = state(e.date - timedelta(seconds=tol)), state(e.date + timedelta(seconds=tol))
         ok_t = ok_t and before != after
         ok_l = ok_l and (("entry" in e.event.info) == (after and not before))
-    c.ensure("events_exist", len(evs) >= 1 if kind == "iss" else True)
+    c.ensure("events_exist", len(evs) >= 1 if kind in ("iss", "geo") else True)
     c.ensure("agrees_with_independent_cone", ok_t)
     c.ensure("label", ok_l)
 
